@@ -247,7 +247,9 @@ fn kinds_str(k: &[ErrKind]) -> String {
 pub fn open_options(max_buf: Option<u32>, strict: bool) -> OpenOptions {
     let mut o = OpenOptions::new();
     if let Some(m) = max_buf {
-        o = o.max_buffer_size(m as usize);
+        // the top 2048 values of the u32 range stand for the top of the usize range
+        let size = if m >= u32::MAX - 2047 { usize::MAX - (u32::MAX - m) as usize } else { m as usize };
+        o = o.max_buffer_size(size);
     }
     if strict {
         o = o.strict();
